@@ -266,6 +266,9 @@ func (f *frame) contractCallTerms(callee *ssa.Function, ct *Contract, args []Ter
 func (f *frame) contractCall(callee *ssa.Function, ct *Contract, c *ssa.CallCommon, args []Term, pos token.Pos) []Term {
 	vc := f.vc
 	vc.usedContracts = true
+	if len(ct.Ensures) > 0 {
+		vc.P.noteAssumedContract(ct.Key, ct.Trusted)
+	}
 	// a frame standing for the callee, only to bind parameters
 	g := &frame{vc: vc, fn: callee, prefix: f.prefix, vals: map[ssa.Value]Term{}, ptrs: map[ssa.Value]*ptrDesc{}, tuples: map[ssa.Value][]Term{}, closures: map[ssa.Value]*ssa.MakeClosure{}, label: f.label}
 	for i, p := range callee.Params {
